@@ -309,21 +309,24 @@ def isPlainBinary : Expr → Bool
   | .bin _ _ _ _ .plain => true
   | _ => false
 
-def mkSum (self : Expr) (c : Int) : PyVal := .ex (.bin .add self (.const c) (c < 0) .sum)
+/-- `Sum(ebpf, left, Constant(c), signed)`: the signedness is handed in by whoever builds the `Sum` (it used to be
+`c < 0`, the sign of the merged constant alone, which forgot the register's own signedness: `sr2 + 1` was unsigned) -/
+def mkSum (self : Expr) (c : Int) (signed : Bool) : PyVal := .ex (.bin .add self (.const c) signed .sum)
 
-/-- `Sum.__add__(c)` / `Sum.__sub__(-c)` with an `int`: a **new** object
-`Sum(self.left, Constant(self.right.value + c))`; `self` and its `Constant` are left alone.  `none` for every
-object that is no `Sum` -/
-def sumShift (c : Int) : Expr → Option PyVal
-  | .bin .add l (.const c0) _ .sum => some (mkSum l (c0 + c))
+/-- `Sum.__add__(v)` (`d = v`) / `Sum.__sub__(v)` (`d = -v`) with an `int` `v`, `neg = (v < 0)`: a **new** object
+`Sum(self.left, Constant(self.right.value + d), self.signed or v < 0)`; `self` and its `Constant` are left alone.
+`none` for every object that is no `Sum` -/
+def sumShift (d : Int) (neg : Bool) : Expr → Option PyVal
+  | .bin .add l (.const c0) sg .sum => some (mkSum l (c0 + d) (sg || neg))
   | _ => none
 
 /-- `self.__add__(value)` (also `__radd__`, which is the same function in every class) -/
 def exprAdd (self : Expr) (value : PyVal) : Except AsmError PyVal :=
   match value with
   | .int c =>
-    if isLongReg self then pure (mkSum self c)                -- Register.__add__ → Sum
-    else match sumShift c self with
+    -- Register.__add__ → `Sum(self, Constant(c), self.signed or c < 0)`
+    if isLongReg self then pure (mkSum self c (self.signed || decide (c < 0)))
+    else match sumShift c (decide (c < 0)) self with
       | some s => pure s                                      -- Sum.__add__ → Sum
       | none => exprBinary .add self value
   | _ => exprBinary .add self value                           -- also `Sum + expression`: `super().__add__`
@@ -332,8 +335,9 @@ def exprAdd (self : Expr) (value : PyVal) : Except AsmError PyVal :=
 def exprSub (self : Expr) (value : PyVal) : Except AsmError PyVal :=
   match value with
   | .int c =>
-    if isLongReg self then pure (mkSum self (-c))
-    else match sumShift (-c) self with
+    -- Register.__sub__ → `Sum(self, Constant(-c), self.signed or c < 0)`: the sign of the number as written
+    if isLongReg self then pure (mkSum self (-c) (self.signed || decide (c < 0)))
+    else match sumShift (-c) (decide (c < 0)) self with
       | some s => pure s                                      -- Sum.__sub__ → Sum
       | none => exprBinary .sub self value
   | _ => exprBinary .sub self value                           -- also `Sum - expression`: `super().__sub__`
@@ -379,7 +383,9 @@ def exprOp (op : SOp) (self : Expr) (value : PyVal) : Except AsmError PyVal :=
   | .mul => exprBinary .mul self value
   | .floordiv => exprBinary .div self value
   | .mod => exprBinary .mod self value
-  | .and => do let v ← ensureExpr value; pure (.ex (.bin .and self v false .and))
+  | .and => do                                                 -- AndExpression: signed iff both operands are
+    let v ← ensureExpr value
+    pure (.ex (.bin .and self v (self.signed && v.signed) .and))
   | .or => exprBinary .or self value
   | .xor => exprBinary .xor self value
   | .lsh => exprBinary .lsh self value
@@ -620,7 +626,8 @@ def DstCtx.forced : DstCtx → DstCtx
   | d => d
 
 /-- *narrow-reg-in-64*: a 32-bit register view inside a 64-bit computation, except an unsigned one that is moved
-(32-bit move, zero-extending) into a different register -/
+(32-bit move, zero-extending) into a different register.  The flags of a `.reg` leaf are those of the view as written
+(`elabE`: `view.long`, `view.signed`); the harness mirror takes them from the program text as well (`dsl.reg_view`) -/
 def narrowIn64 : Expr → Bool → Bool → DstCtx → Bool
   | .const _, _, _, _ => false
   | .reg no lg sg, L, forced, dst => L && !lg && (sg || !(forced && dst != .reg no))
